@@ -114,6 +114,13 @@ def run_relay(item):
             return out
         # warm the pool connection so that parameter sync etc. is out of the way
         c.query('SELECT 0')
+        if item.get('pre') == 'lone_sync':
+            # a batch the pooler answers itself right before the request under test: nothing of it may linger
+            c.send(W.Sync())
+            r0 = c.read_reply(3.0)
+            if r0.end != 'Z':
+                out['error'] = 'lone Sync: ' + r0.brief()
+                return out
         mark = w.log.mark()
         hmark = len(w.hooks())
         be.scripts.append(script)
